@@ -4,6 +4,7 @@ import (
 	"context"
 	"errors"
 	"fmt"
+	"math"
 	"strconv"
 	"strings"
 	"sync"
@@ -922,6 +923,15 @@ func Vacuum(ctx context.Context, tableName string, beforeTime time.Time) error {
 	table := GetTable(tableName)
 	if table == nil {
 		return fmt.Errorf("table not found: %s", tableName)
+	}
+
+	// The tree counts time in int64 nanoseconds (years 1678 to 2262): a cutoff
+	// outside that range would wrap around when it is compared with entry times.
+	if min := time.Unix(0, math.MinInt64); beforeTime.Before(min) {
+		beforeTime = min
+	}
+	if max := time.Unix(0, math.MaxInt64); beforeTime.After(max) {
+		beforeTime = max
 	}
 
 	db, err := table.Tree.Root.Clone(ctx)
